@@ -60,7 +60,9 @@ func mutexOf(ci ssa.CallInstruction) (key string, base ssa.Value, op string, ok 
 		if p, ok := t.(*types.Pointer); ok {
 			t = p.Elem()
 		}
-		return "field:" + t.String() + "." + f.Name(), b, m, true
+		// the receiver may be a parameter spilled to a local because a closure captures it: every
+		// load of that local is the same object
+		return "field:" + t.String() + "." + f.Name(), localVal(b), m, true
 	}
 	return "", nil, m, false
 }
@@ -317,6 +319,8 @@ func c09TunnelAs(c *Ctx, rule string) {
 			// functions only reachable through forward stay on the relay side
 		}
 	}
+	hbFns := c.preSpawnCallbackFns(rule, pr)
+	hbInstr := c.preSpawnAccesses(rule)
 	acc := map[*types.Var]map[string][]fieldAccess{}
 	for s, fns := range side {
 		for f := range fns {
@@ -348,6 +352,19 @@ func c09TunnelAs(c *Ctx, rule string) {
 			continue
 		}
 		nShared++
+		// a field all of whose writes are ordered before the relay goroutine's start is read-only
+		// while both goroutines run
+		frozen := true
+		for _, s := range []string{"loop", "relay"} {
+			for _, a := range acc[f][s] {
+				if !a.write {
+					continue
+				}
+				if s == "relay" || side["relay"][a.fn] || !(hbInstr[a.in] || hbFns[a.fn]) {
+					frozen = false
+				}
+			}
+		}
 		seen := map[ssa.Instruction]bool{}
 		i := 0
 		for _, s := range []string{"loop", "relay"} {
@@ -360,7 +377,7 @@ func c09TunnelAs(c *Ctx, rule string) {
 				key := fmt.Sprintf("Tunnel.%s %s in %s#%d", f.Name(), a.what, shortFn(a.fn), i)
 				held := false
 				for _, l := range c.locksHeldAtUp(a.fn, a.in, 0) {
-					if strings.HasPrefix(l.key, "field:"+protoPkg+".Tunnel.") && l.base == a.base && l.exclusive {
+					if strings.HasPrefix(l.key, "field:"+protoPkg+".Tunnel.") && (l.base == a.base || l.base == localVal(a.base)) && l.exclusive {
 						held = true
 					}
 				}
@@ -376,6 +393,18 @@ func c09TunnelAs(c *Ctx, rule string) {
 						c.OK(rule, key, a.in.Pos(), "before the relay goroutine is started (happens-before through the go statement)")
 						continue
 					}
+				}
+				if !held && frozen {
+					c.OK(rule, key, a.in.Pos(), "the field is written only before the relay goroutine is started (typestate model: every write runs in a phase no spawn can precede); both goroutines only read it afterwards")
+					continue
+				}
+				if !held && hbInstr[a.in] && !side["relay"][a.fn] {
+					c.OK(rule, key, a.in.Pos(), "executed by the packet loop only before the relay goroutine is started (typestate model: on every path that reaches it no spawn has happened yet, and it is not reachable from a phase that follows a spawn)")
+					continue
+				}
+				if !held && hbFns[a.fn] && !side["relay"][a.fn] {
+					c.OK(rule, key, a.in.Pos(), "inside a policy callback that the packet loop consults only in phases before the relay goroutine exists (typestate model: every consultation precedes the spawn, and no phase before the spawn is re-entered after it)")
+					continue
 				}
 				if held {
 					c.OK(rule, key, a.in.Pos(), "under the tunnel's write mutex")
@@ -645,4 +674,200 @@ func c09PoolAlias(c *Ctx) {
 	if n == 0 {
 		c.OKTrivial(rule, "no sync.Pool", token.NoPos, "first-party code recycles no objects through sync.Pool")
 	}
+}
+
+// preSpawnCallbackFns: the functions that run only inside a policy callback of the Gateway
+// (CheckPAACookie, CheckClientName, CheckHost) which, by the typestate model of the packet loop, is
+// consulted only before the relay goroutine of the tunnel can exist: on every path of the model the
+// consultation precedes any spawn, starts in a phase that is never re-entered after a spawn, and
+// the function is not reachable from the loop by any other call edge. Accesses in them
+// happen-before everything the relay goroutine does (the go statement orders them).
+func (c *Ctx) preSpawnCallbackFns(rule string, pr *ssa.Function) map[*ssa.Function]bool {
+	out := map[*ssa.Function]bool{}
+	m := c.ProcessModel(rule)
+	if m == nil {
+		return out
+	}
+	// phases reachable without a spawn, and phases reachable after one
+	pre := map[int64]bool{m.Init: true}
+	for changed := true; changed; {
+		changed = false
+		for _, p := range m.Paths {
+			if !pre[p.Start] || p.Has("SPAWN") {
+				continue
+			}
+			for _, e := range p.All("SET") {
+				if !pre[e.Int] {
+					pre[e.Int], changed = true, true
+				}
+			}
+		}
+	}
+	post := map[int64]bool{}
+	for _, p := range m.Paths {
+		if p.Has("SPAWN") {
+			post[p.End] = true
+			for _, e := range p.All("SET") {
+				post[e.Int] = true
+			}
+		}
+	}
+	for changed := true; changed; {
+		changed = false
+		for _, p := range m.Paths {
+			if !post[p.Start] {
+				continue
+			}
+			if !post[p.End] {
+				post[p.End], changed = true, true
+			}
+			for _, e := range p.All("SET") {
+				if !post[e.Int] {
+					post[e.Int], changed = true, true
+				}
+			}
+		}
+	}
+	okCb := map[string]bool{}
+	sites := map[ssa.Instruction]string{}
+	for _, p := range m.Paths {
+		spawned := false
+		for _, e := range p.Effects {
+			switch e.Kind {
+			case "SPAWN":
+				spawned = true
+			case "CHECK":
+				sites[e.Instr] = e.Name
+				if _, seen := okCb[e.Name]; !seen {
+					okCb[e.Name] = true
+				}
+				if spawned || !pre[p.Start] || post[p.Start] {
+					okCb[e.Name] = false
+				}
+			}
+		}
+	}
+	cg := c.P.CallGraph()
+	walk := func(roots []*ssa.Function, skipCb bool) map[*ssa.Function]bool {
+		seen := map[*ssa.Function]bool{}
+		work := append([]*ssa.Function(nil), roots...)
+		for len(work) > 0 {
+			f := work[len(work)-1]
+			work = work[:len(work)-1]
+			if f == nil || seen[f] || !IsFirstParty(f) {
+				continue
+			}
+			seen[f] = true
+			if n := cg.Nodes[f]; n != nil {
+				for _, e := range n.Out {
+					if skipCb && e.Site != nil {
+						if _, isCb := sites[e.Site.(ssa.Instruction)]; isCb {
+							continue
+						}
+					}
+					work = append(work, e.Callee.Func)
+				}
+			}
+			for _, a := range f.AnonFuncs {
+				work = append(work, a)
+			}
+		}
+		return seen
+	}
+	direct := walk([]*ssa.Function{pr}, true)
+	var good, bad []*ssa.Function
+	for f := range direct {
+		if n := cg.Nodes[f]; n != nil {
+			for _, e := range n.Out {
+				if e.Site == nil {
+					continue
+				}
+				if name, isCb := sites[e.Site.(ssa.Instruction)]; isCb {
+					if okCb[name] {
+						good = append(good, e.Callee.Func)
+					} else {
+						bad = append(bad, e.Callee.Func)
+					}
+				}
+			}
+		}
+	}
+	badSet := walk(bad, false)
+	for f := range walk(good, false) {
+		if !direct[f] && !badSet[f] {
+			out[f] = true
+		}
+	}
+	return out
+}
+
+// modelPhases: the phases reachable without any spawn (pre) and the phases reachable after one (post).
+func modelPhases(m *Model) (pre, post map[int64]bool) {
+	pre = map[int64]bool{m.Init: true}
+	for changed := true; changed; {
+		changed = false
+		for _, p := range m.Paths {
+			if !pre[p.Start] || p.Has("SPAWN") {
+				continue
+			}
+			for _, e := range p.All("SET") {
+				if !pre[e.Int] {
+					pre[e.Int], changed = true, true
+				}
+			}
+		}
+	}
+	post = map[int64]bool{}
+	for _, p := range m.Paths {
+		if p.Has("SPAWN") {
+			post[p.End] = true
+			for _, e := range p.All("SET") {
+				post[e.Int] = true
+			}
+		}
+	}
+	for changed := true; changed; {
+		changed = false
+		for _, p := range m.Paths {
+			if !post[p.Start] {
+				continue
+			}
+			if !post[p.End] {
+				post[p.End], changed = true, true
+			}
+			for _, e := range p.All("SET") {
+				if !post[e.Int] {
+					post[e.Int], changed = true, true
+				}
+			}
+		}
+	}
+	return pre, post
+}
+
+// preSpawnAccesses: the field loads and stores of the packet loop (and of the helpers the model
+// inlines) that, on every path of the typestate model on which they execute, run in a phase that no
+// spawn can precede and before any spawn of that path. The go statement orders them before
+// everything the relay goroutine does.
+func (c *Ctx) preSpawnAccesses(rule string) map[ssa.Instruction]bool {
+	out := map[ssa.Instruction]bool{}
+	m := c.ProcessModel(rule)
+	if m == nil {
+		return out
+	}
+	pre, post := modelPhases(m)
+	bad := map[ssa.Instruction]bool{}
+	for _, p := range m.Paths {
+		for _, a := range p.Mem {
+			if a.AfterSpawns > 0 || !pre[p.Start] || post[p.Start] {
+				bad[a.Instr] = true
+			} else {
+				out[a.Instr] = true
+			}
+		}
+	}
+	for in := range bad {
+		delete(out, in)
+	}
+	return out
 }
